@@ -14,6 +14,7 @@ R05.3  pass order in compile_scc_to_ir (shared with C05).
 from __future__ import annotations
 
 import ast
+import re
 
 from ..cfg import CFG, call_name
 from ..index import AnalysisError, ClassInfo, get_index, norm
@@ -140,6 +141,9 @@ def run(chk: Check) -> None:
     run_borrow_chain(chk, ix)
     run_borrowed_results(chk, ix)
     run_stolen_args(chk, ix)
+    run_cfg_handler_edges(chk, ix)
+    run_ctor_init_failure(chk, ix)
+    run_bitmap_del(chk, ix)
     base = ix.cls(OP)
     ops = [c for c in base.all_subclasses() if c.module.name == "mypyc.ir.ops" and "sources" in c.methods and not any(isinstance(n, ast.Raise) for n in c.methods["sources"].node.body)]
     if len(ops) < 35:
@@ -624,3 +628,174 @@ def run_stolen_args(chk: Check, ix) -> None:
                 r10.ok(key, where, "declared stolen" if stolen else "takes its own reference first")
             else:
                 r10.violation(key, where, f"{cname} hands `{pn}` to its new owner ({c['given_away']}) without taking a reference, and the primitive does not declare the argument as stolen: the caller releases its reference too, so the object is freed while the new owner still points to it")
+
+
+def run_cfg_handler_edges(chk: Check, ix) -> None:
+    """R06.11: the pre-exception-transform CFG has an edge to the handler of every normal successor."""
+    from ..cfg import branch_conditions
+    r11 = chk.rule("R06.11", "analysis/dataflow.get_cfg (the CFG of the must-defined analysis that decides where UnboundLocalError checks go) gives every block an edge to its own error handler and to the error handler of each normal successor, each conditional on nothing but that handler existing: an error can strike before the next block has completed, so a register assigned in an inner try body must not count as defined in that try's handler; making the successor-handler edges depend on the block's own handler drops them where protected regions nest, and compiled code reads a never-assigned (NULL) register", floor=3)
+    f = ix.func("mypyc.analysis.dataflow.get_cfg")
+    par = f.module.parents()
+    outer = [l for l in ast.walk(f.node) if isinstance(l, ast.For) and isinstance(l.target, ast.Name) and norm(l.iter) == "blocks"]
+    if not outer:
+        raise AnalysisError("get_cfg: the loop over blocks was not found")
+    blk = outer[0].target.id
+    # the per-block successor list
+    succ = None
+    for a in ast.walk(outer[0]):
+        if isinstance(a, ast.Assign) and len(a.targets) == 1 and isinstance(a.targets[0], ast.Name) and isinstance(a.value, ast.Call) and "targets" in norm(a.value):
+            succ = a.targets[0].id
+    if succ is None:
+        raise AnalysisError("get_cfg: the successor list (from terminator.targets()) was not found")
+    appends = [c for c in ast.walk(outer[0]) if isinstance(c, ast.Call) and isinstance(c.func, ast.Attribute) and c.func.attr == "append" and norm(c.func.value) == succ and c.args]
+
+    def origin(e: ast.expr, at: ast.AST) -> set[str]:
+        """{'own', 'succ'}: whose handler the appended value is."""
+        if isinstance(e, ast.Name):
+            out: set[str] = set()
+            for a in ast.walk(outer[0]):
+                if isinstance(a, ast.Assign) and any(isinstance(t, ast.Name) and t.id == e.id for t in a.targets):
+                    out |= origin(a.value, a)
+            return out
+        if isinstance(e, ast.Attribute) and e.attr == "error_handler":
+            b = e.value
+            if isinstance(b, ast.Name) and b.id == blk:
+                return {"own"}
+            if isinstance(b, ast.Name):
+                # a loop variable: over what?
+                cur = par.get(at)
+                while cur is not None and cur is not outer[0]:
+                    if isinstance(cur, ast.For) and isinstance(cur.target, ast.Name) and cur.target.id == b.id:
+                        it = norm(cur.iter)
+                        o = set()
+                        if re.search(rf"\b{succ}\b", it):
+                            o.add("succ")
+                        if re.search(rf"\[{blk}\]", it):
+                            o.add("own")
+                        return o
+                    cur = par.get(cur)
+        return set()
+    own_ok = succ_ok = False
+    # an append of a loop variable over a local list stands for the appends that fill that list
+    work = list(appends)
+    seen_calls = set()
+    flat = []
+    while work:
+        c = work.pop()
+        if id(c) in seen_calls:
+            continue
+        seen_calls.add(id(c))
+        a0 = c.args[0]
+        via = None
+        if isinstance(a0, ast.Name):
+            cur = par.get(c)
+            while cur is not None and cur is not outer[0]:
+                if isinstance(cur, ast.For) and isinstance(cur.target, ast.Name) and cur.target.id == a0.id and isinstance(cur.iter, ast.Name) and cur.iter.id != succ:
+                    via = cur.iter.id
+                    break
+                cur = par.get(cur)
+        if via is not None:
+            work.extend(x for x in ast.walk(outer[0]) if isinstance(x, ast.Call) and isinstance(x.func, ast.Attribute) and x.func.attr == "append" and norm(x.func.value) == via and x.args)
+        flat.append(c)
+    for c in flat:
+        o = origin(c.args[0], c)
+        if not o:
+            continue
+        st = c
+        while not isinstance(st, ast.stmt):
+            st = par[st]
+        pos, neg = branch_conditions(par, outer[0], st, early_exits=True)
+        arg_txt = norm(c.args[0])
+        foreign = []
+        for t, polarity in [(x, "true") for x in pos] + [(x, "false") for x in neg]:
+            names = {norm(a) for a in ast.walk(t) if isinstance(a, ast.Attribute) and a.attr == "error_handler"} | {n.id for n in ast.walk(t) if isinstance(n, ast.Name)}
+            # allowed: tests on the appended handler itself (existence / not already present)
+            mentions_own = any(x == f"{blk}.error_handler" for x in names)
+            if "succ" in o and mentions_own and not ("own" in o and arg_txt.endswith("error_handler") and not isinstance(c.args[0], ast.Name)):
+                foreign.append(f"`{norm(t)}` is {polarity}")
+            elif "succ" in o and "own" not in o and mentions_own:
+                foreign.append(f"`{norm(t)}` is {polarity}")
+        key = f"get_cfg: edge to the handler of {' / '.join(sorted(o)).replace('own', 'the block itself').replace('succ', 'each normal successor')} is unconditional (given the handler exists)"
+        if foreign:
+            r11.violation(key, f.loc(c), f"the edge is added only when {'; '.join(foreign)}: a block that has a handler of its own gets no edge to the (different) handler of a successor, so in nested try statements the inner handler inherits the definedness state of the end of the inner try body")
+        else:
+            r11.ok(key, f.loc(c))
+            own_ok = own_ok or "own" in o
+            succ_ok = succ_ok or "succ" in o
+    for what, ok in (("its own handler", own_ok), ("the handler of each normal successor", succ_ok)):
+        key = f"get_cfg: every block has an edge to {what}"
+        if ok:
+            r11.ok(key, f.loc(outer[0]))
+        else:
+            r11.violation(key, f.loc(outer[0]), f"no unconditional edge to {what} is added")
+
+
+def run_ctor_init_failure(chk: Check, ix) -> None:
+    """R06.12: the generated constructor recognises a failed __init__ in both calling conventions."""
+    r12 = chk.rule("R06.12", "generate_constructor_for_class calls __init__ either natively (result `char`, 2 on error: bool_rprimitive's error value) or through the Python-level wrapper (PyObject *, NULL on error) and stores the outcome in one C variable `res`; the failure value the wrapper case maps NULL to, and the value `res` is compared with before the half-built object is released and NULL returned, are both that error value; a mismatch returns the object with the exception still set (SystemError) ", floor=2)
+    f = ix.func("mypyc.codegen.emitclass.generate_constructor_for_class")
+    strs = [(n, n.value) for n in ast.walk(f.node) if isinstance(n, ast.Constant) and isinstance(n.value, str)]
+    maps = [(n, m.group(1)) for n, s_ in strs for m in [re.search(r"!= NULL \? 0 : (-?\d+)", s_)] if m]
+    tests = [(n, m.group(1)) for n, s_ in strs for m in [re.search(r"\bres == (-?\d+)", s_)] if m]
+    rt = ix.module("mypyc.ir.rtypes")
+    bool_def = rt.assigns.get("bool_rprimitive")
+    # error value of a C `char` result of a native bool-returning function: RPrimitive.__init__'s c_undefined for "char"
+    rp = ix.cls("mypyc.ir.rtypes.RPrimitive")
+    init = rp.methods["__init__"]
+    errv = None
+    for n in ast.walk(init.node):
+        if isinstance(n, ast.If) and "char" in norm(n.test):
+            for a in n.body:
+                if isinstance(a, ast.Assign) and norm(a.targets[0]) == "self.c_undefined" and isinstance(a.value, ast.Constant):
+                    errv = str(a.value.value)
+    if not maps or not tests or errv is None or bool_def is None:
+        raise AnalysisError(f"generate_constructor_for_class: mapping {maps}, tests {tests}, char error value {errv}")
+    for n, k in tests:
+        key = f"the constructor tests `res == {k}`: the error value of a native char result"
+        if k == errv:
+            r12.ok(key, f.loc(n))
+        else:
+            r12.violation(key, f.loc(n), f"a natively called __init__ reports failure as {errv}, the constructor looks for {k}")
+    for n, k in maps:
+        key = f"the wrapper case maps NULL to the value the constructor tests"
+        if all(k == t for _, t in tests):
+            r12.ok(key, f.loc(n))
+        else:
+            r12.violation(key, f.loc(n), f"a failing __init__ called through its wrapper gives res = {k}, but the constructor only recognises res == {tests[0][1]}: the object is returned although an exception is set (SystemError; the attributes __init__ should have set are missing)")
+
+
+def run_bitmap_del(chk: Check, ix) -> None:
+    """R06.13: the definedness bitmap follows `del`."""
+    from ..cfg import branch_conditions
+    r13 = chk.rule("R06.13", "update_register_assignments_to_set_bitmap (locals of types without a spare error value: native ints, float) sets the variable's bit for an assignment only if the assigned value is not the undefining error value (`LoadErrorValue(undefines=True)`, how `del x` and the initial state are written), and clears it in that case: the must-defined analysis treats such an assignment as undefining, so the run-time check that follows must see the bit cleared, or a read after `del` yields the raw error value", floor=2)
+    f = ix.func("mypyc.transform.uninit.update_register_assignments_to_set_bitmap")
+    par = f.module.parents()
+    ors = [c for c in ast.walk(f.node) if isinstance(c, ast.Call) and call_name(c) == "IntOp" and any(norm(a) == "IntOp.OR" for a in c.args)]
+    ands = [c for c in ast.walk(f.node) if isinstance(c, ast.Call) and call_name(c) == "IntOp" and any(norm(a) == "IntOp.AND" for a in c.args)]
+    if not ors:
+        raise AnalysisError("update_register_assignments_to_set_bitmap: no IntOp(..., IntOp.OR, ...) found")
+
+    def undef_test(ts) -> bool:
+        return any("undefines" in norm(t) for t in ts)
+    for c in ors:
+        st = c
+        while not isinstance(st, ast.stmt):
+            st = par[st]
+        pos, neg = branch_conditions(par, f.node, st, early_exits=True)
+        key = "the bit is set only for assignments of a real value"
+        if undef_test(neg):
+            r13.ok(key, f.loc(c))
+        else:
+            r13.violation(key, f.loc(c), "the bit is OR-ed in for every assignment to a bitmap-backed register, including the assignment of the undefining error value that implements `del x`: a later read passes the definedness check and returns -113 / -113.0")
+    key = "the bit is cleared when the undefining error value is assigned"
+    ok = False
+    for c in ands:
+        st = c
+        while not isinstance(st, ast.stmt):
+            st = par[st]
+        pos, neg = branch_conditions(par, f.node, st, early_exits=True)
+        ok = ok or undef_test(pos)
+    if ok:
+        r13.ok(key, f.loc(ands[0]))
+    else:
+        r13.violation(key, f.loc(), "no IntOp.AND under a test of `undefines`: after `del x` the bit of x stays set")
